@@ -1017,7 +1017,11 @@ func (s *c15scn) body() {
 	for _, d := range w.reqs {
 		by += d.by
 	}
-	vs.Observe("%s | %s | %s rows=%d requests-by(consumer/async-prefetch)=%s", cf, pc, gocql.VerifErrClass(r.err), len(r.rows), by)
+	pol := ""
+	for _, c := range w.consults {
+		pol += " policy:" + retryDecisionName[c.decision]
+	}
+	vs.Observe("%s | %s | %s rows=%d requests-by(consumer/async-prefetch)=%s%s", cf, pc, gocql.VerifErrClass(r.err), len(r.rows), by, pol)
 	vs.Quiet(true)
 	sess.Close()
 	vs.Quiet(false)
@@ -1320,11 +1324,15 @@ func main() {
 			"automatic and manual paging ('wide-options', 'wide-options-manual'): every request must be decodable by the reference decoder and carry the first request's statement, values and options (incl. serial consistency, presence and - when fixed - value of the timestamp), the first one the caller's; "+
 			"and an OPERATION OF THE CALLER on the original *Query once Iter() has returned (Bind(other values) / Consistency / PageSize / SerialConsistency / WithTimestamp / all of these / Release()) x the position (right after Iter(), or after each number of rows seen; SliceMap: right after Iter()) "+
 			"('wide-caller-reuses-query' default schedule, thorough + one failing page; 'caller-reuses-query-deep' T=1, thorough T=2: the prefetch goroutine races the operation): the following pages are requested exactly like the first. "+
+			"Round 4: a scripted RETRY POLICY on the paged query (Query.RetryPolicy, or inherited from ClusterConfig.RetryPolicy; query idempotent; two nodes serving the same script, 'wide-retry-one-host' a single one) whose answer to EVERY failed fetch is a FREE choice among Retry / RetryNextHost / Rethrow / Ignore, "+
+			"x a failing fetch at every page position (first / middle / last, empty or not) x 3 failure kinds x every consumer x prefetch 0/1 x unprepared / prepared+skipmeta ('wide-retry': 1-3 pages, quick with reduced row alphabets, thorough 'wide-retry+' the whole 96-configuration x 84-script product; default schedule + one failure; 'retry-deep': two failures, or one failure + one schedule / timer deviation, thorough T=2): "+
+			"a page is requested again only after the policy answered Retry / RetryNextHost for it; after Rethrow or Ignore the iteration ends with an error, never normally; when every page was served in the end it ends normally with every row. "+
+			"The result of the SliceMap consumer is the error SliceMap RETURNS (not what a later Close() says), for every failing page position in every scenario. "+
 			"Free-choice alternatives per scenario: "+strings.Join(sizes, ", "),
-		[]string{"1 host, 1 connection, no control connection, protocol v4, request timeout 100ms, no retry policy, default timestamp on",
+		[]string{"1 host (speculative / retry scenarios: 2), 1 connection per host, no control connection, protocol v4, request timeout 100ms, no retry policy except in the 'retry' scenarios (scripted policy, budget 3 consultations per iteration), default timestamp on",
 			"the node answers a request according to the paging state it RECEIVES and logs statement/id, values, consistency, flags, page size, paging state (decoded by the independent reference codec)",
 			"stream-allocator atomics are not scheduling points (C08); map iteration order fixed; -race pass separate",
 			"page size does not constrain the script (a node may return fewer rows than the page size; scripts have <= 3 rows per page and page size >= 3)",
 			"the caller's operation on the original *Query is performed by the consuming thread itself (a Query is not used concurrently by the caller); Release() only after Iter() has returned"},
-		defs, 60*time.Second, 56*time.Minute, nil) // thorough: the budget is a cap shared equally: 14 scenarios x 240 s; the largest need 90-230 s on a loaded machine, the whole tier 8-13 min
+		defs, 60*time.Second, 68*time.Minute, nil) // thorough: the budget is a cap shared equally: 17 scenarios x 240 s; the largest need 90-230 s on a loaded machine, the whole tier 8-13 min
 }
